@@ -24,7 +24,7 @@ def items(tier, seed):
                          ('durs', {'values': [0, 1, 2]})]},
         job_open={'forever': [True], 'out': ['raise'], 'cdelay': [1]},
         top_open={'timeout': [2, 3], 'k': ['nest']}, extra=_base.X_THASH,
-        k=2 if th else 1, bound=3 if th else 2)
+        pre=True, k=2 if th else 1, bound=3 if th else 2)
     yield from spaces.mk(
         ['flat4'], th, force='windows', fargs={'values': [1, 2, 3]},
         job_open={'dur': [0, 2], 'out': ['raise']}, top_open={},
